@@ -1,7 +1,312 @@
-LEVEL = "exploration"
-RULE = "preliminary"
-ASSUMPTIONS = []
-RUNS = [
-    dict(harness="harness/C13.cpp", flavour="o2", scale={"quick": 1.0, "thorough": 1.0}, max_restarts=200),
+"""C13 - error contract, NaN policy, memory safety, no crash / hang.
+
+RUNS: harness/C13.cpp (constructor matrix, NaN propagation with inferred dependence, special
+values, throw-leaves-outputs) and harness/C13_files.cpp (fault enumeration over the data-file
+readers, hostile-string catalogue and grammar) in the -O2 and the ASan+UBSan builds.
+extra(): coverage-guided libFuzzer campaigns (clang, ASan+UBSan) over every string parser and
+file reader, and (thorough) a valgrind memcheck pass over the file-reader corpus."""
+import atexit, glob, hashlib, json, os, re, shutil, struct, subprocess, sys, time
+from concurrent.futures import ThreadPoolExecutor
+
+VERIF = os.path.dirname(os.path.dirname(os.path.abspath(__file__)))
+sys.path.insert(0, os.path.join(VERIF, "lib"))
+
+LEVEL = "exploration"          # the fault-enumeration part is reported separately in coverage["levels"]
+RULE = ("numeric: one case = (entry point, argument position, special value | NaN) with all other arguments drawn valid from the "
+        "entry's generator; dependence of every output on the argument is inferred from re-draws; distinct = hash(entry, arguments, "
+        "ellipsoid).  constructors: (constructor, parameter, special value) exhaustively + random multi-parameter cases.  files: one case "
+        "= one enumerated fault of one valid synthetic seed file (every truncation offset, every header field x replacement list, every "
+        "length word, every line deleted/duplicated/swapped, every single-byte corruption, swapped/empty .cof).  strings: (catalogue "
+        "entry | grammar mutation) x parser.  fuzz: libFuzzer executions (coverage-guided, -runs bounded), counted separately.")
+ASSUMPTIONS = [
+    "ASan/UBSan (g++ 12, clang 14) and valgrind memcheck detect the memory errors / UB they are documented to detect",
+    "std::bad_alloc is produced by a replaced operator new with a 512 MB cap (fuzz/C13_newlimit.hpp) - ASan's own operator new aborts instead of throwing",
+    "the per-case CPU watchdog (4 s numeric, 60 s files; library calls take microseconds) separates 'hang' from 'slow'",
+    "documented-legal/illegal constructor parameters are transcribed by hand from the headers (fuzz/C13_ctors.hpp)",
+    "NaN rule: an output is required to be NaN only if it was OBSERVED to change when the argument was re-drawn with all else fixed",
 ]
-MANIFEST = dict(technique="x", text="x", note="x", design_ref="DESIGN.md#c13")
+EXHAUSTIVE_SUBSPACES = [
+    "constructor matrix: every listed constructor x every parameter x its special-value list",
+    "fault enumeration: the complete fault lists of every seed file (sections fault_*), both builds",
+    "hostile-string catalogue x every string parser (section parser_directed), both builds",
+]
+RUNS = [
+    dict(harness="harness/C13_files.cpp", flavour="asan", scale={"quick": 0.5, "thorough": 0.3}, max_restarts=200),
+    dict(harness="harness/C13_files.cpp", flavour="o2", scale={"quick": 1.0, "thorough": 1.0}, max_restarts=200),
+    dict(harness="harness/C13.cpp", flavour="asan", scale={"quick": 0.3, "thorough": 0.1}, max_restarts=400),
+    dict(harness="harness/C13.cpp", flavour="o2", scale={"quick": 1.0, "thorough": 1.0}, max_restarts=400),
+]
+# development switch (not used by the normal check): C13_ONLY=C13_files|C13.cpp|fuzz restricts the run
+_ONLY = os.environ.get("C13_ONLY")
+if _ONLY:
+    RUNS = [r for r in RUNS if _ONLY in r["harness"]]
+MANIFEST = dict(
+    technique="sanitizer builds (ASan+UBSan incl. float-cast-overflow) + exception/sentinel/NaN-dependence monitors over a registry of ~240 numeric "
+              "entry points and ~55 constructors; deterministic fault enumeration and libFuzzer (coverage-guided) over all string parsers and data-file "
+              "readers; valgrind memcheck over the reader corpus; per-case CPU watchdog",
+    text="Every registered public entry point is executed with NaN and with the special values in every argument position while monitors check the "
+         "exception type, that outputs are untouched after a throw, that outputs observed to depend on the NaN argument are NaN and the others "
+         "bit-identical; every constructor parameter is driven through its legal/illegal special values; every string parser and file reader is "
+         "driven with an enumerated list of faults of valid seeds and with coverage-guided mutation, all under ASan/UBSan. Held = no monitor or "
+         "sanitizer fired on the executions observed (known findings listed in known_findings.json).",
+    note="Trusts the sanitizers, the hand-transcribed legality tables and the registry's valid-input generators; entry points not in the registry, "
+         "multi-threaded use and the CLI tools (C10) are out of scope; libFuzzer coverage is bounded by -runs.",
+    design_ref="DESIGN.md#c13")
+
+# ------------------------------------------------------------------ libFuzzer campaigns
+# executions per target: (quick, thorough)
+FUZZ_RUNS = {
+    "dms_decode": (150000, 6000000), "dms_latlon": (100000, 4000000), "geocoords": (60000, 3000000), "mgrs_reverse": (150000, 6000000),
+    "utmups_zone": (150000, 4000000), "geohash": (150000, 4000000), "gars": (150000, 4000000), "georef": (150000, 4000000),
+    "osgb": (150000, 4000000), "utility": (80000, 4000000), "fract_int": (100000, 2000000),
+    "geoid": (25000, 1500000), "magnetic": (40000, 2500000), "gravity": (40000, 2500000), "readcoeffs": (40000, 2000000),
+    "nn_bin": (30000, 1500000), "nn_text": (60000, 2500000),
+}
+MAXLEN = {"geoid": 4096, "magnetic": 4096, "gravity": 4096, "readcoeffs": 2048, "nn_bin": 4096, "nn_text": 2048}
+FUZZ_ENV = {
+    "ASAN_OPTIONS": "abort_on_error=1:halt_on_error=1:detect_leaks=0:allocator_may_return_null=1:max_allocation_size_mb=512:symbolize=1:handle_abort=1",
+    "UBSAN_OPTIONS": "print_stacktrace=1:halt_on_error=1:abort_on_error=1:symbolize=1",
+}
+NJOBS = 12
+
+
+def _witness(target, data):
+    """store a fuzz witness so that bin/check C13 --replay re-executes it through harness/C13_files.cpp (section fuzz_witness)"""
+    idx = int(hashlib.sha1(target.encode() + b"\n" + data).hexdigest()[:12], 16)
+    d = os.path.join(VERIF, "replays", "C13")
+    os.makedirs(d, exist_ok=True)
+    with open(os.path.join(d, "w_%d.bin" % idx), "wb") as f:
+        f.write(target.encode() + b"\n" + data)
+    return idx
+
+
+def _fuzz_target(exe, target, nruns, seed, root, env):
+    import driver
+    corp = os.path.join(root, "corpus", target)
+    seeds = os.path.join(root, "seeds", target)
+    art = os.path.join(root, "art", target)
+    os.makedirs(corp, exist_ok=True)
+    os.makedirs(art, exist_ok=True)
+    viollog = os.path.join(root, "viol.%s.jsonl" % target)
+    e = dict(env, C13_TARGET=target, C13_SCRATCH=os.path.join(root, "scratch"), C13_VIOLLOG=viollog)
+    done, crashes, stats, out = 0, [], {}, dict(target=target, execs=0, restarts=0)
+    for attempt in range(6):
+        left = nruns - done
+        if left <= 0:
+            break
+        cmd = [exe, "-runs=%d" % left, "-seed=%d" % (seed + 7919 * attempt), "-max_len=%d" % MAXLEN.get(target, 128),
+               "-dict=" + os.path.join(root, "seeds", target + ".dict"), "-timeout=25", "-malloc_limit_mb=0", "-rss_limit_mb=6000",
+               "-print_final_stats=1", "-artifact_prefix=" + art + "/", corp, seeds]
+        p = subprocess.run(cmd, env=e, stdout=subprocess.DEVNULL, stderr=subprocess.PIPE)
+        txt = p.stderr.decode("utf-8", "replace")
+        m = re.search(r"stat::number_of_executed_units:\s*(\d+)", txt)
+        n = int(m.group(1)) if m else 0
+        if not m:
+            # crashed before the final stats: take the last "#N" progress marker
+            ms = re.findall(r"^#(\d+)\s", txt, re.M)
+            n = int(ms[-1]) if ms else 0
+        done += max(n, 1)
+        for k in ("cov", "ft", "corp"):
+            mm = re.findall(r"\b%s: (\d+)" % k, txt)
+            if mm:
+                stats[k] = int(mm[-1])
+        if p.returncode == 0:
+            continue
+        out["restarts"] += 1
+        # a crash / timeout / oom artifact
+        arts = sorted(glob.glob(os.path.join(art, "*")), key=os.path.getmtime)
+        data = open(arts[-1], "rb").read() if arts else b""
+        kind = "crash"
+        if "libFuzzer: timeout" in txt:
+            kind = "timeout"
+        elif "libFuzzer: out-of-memory" in txt:
+            kind = "oom"
+        key = driver._san_key(txt)
+        if kind in ("timeout", "oom") and arts:
+            # re-run once outside the fuzzing loop before it can become a violation
+            try:
+                q = subprocess.run([exe, arts[-1]], env=e, stdout=subprocess.DEVNULL, stderr=subprocess.PIPE, timeout=120)
+                if q.returncode == 0:
+                    out["flaky"] = out.get("flaky", 0) + 1
+                    for a in arts:
+                        os.unlink(a)
+                    continue
+            except subprocess.TimeoutExpired:
+                pass
+            key = ("hang:C13/fuzz/" if kind == "timeout" else "oom:C13/fuzz/") + target
+        if key is None:
+            key = "crash:C13/fuzz/%s/exit%d" % (target, p.returncode)
+        crashes.append(dict(key=key, data=data, report=txt[-3500:], kind=kind))
+        for a in arts:
+            os.unlink(a)
+    out["execs"] = done
+    out.update(stats)
+    mons = []
+    if os.path.exists(viollog):
+        for line in open(viollog, errors="replace"):
+            try:
+                mons.append(json.loads(line))
+            except Exception:
+                pass
+    return out, crashes, mons
+
+
+def _cleanup_stale():
+    for d in glob.glob("/dev/shm/c13*.*"):
+        m = re.search(r"\.(\d+)$", d)
+        if m and not os.path.exists("/proc/" + m.group(1)):
+            shutil.rmtree(d, ignore_errors=True)
+
+
+def _valgrind(res, seed, root, corpus_root):
+    """memcheck over (a) seeds + libFuzzer corpus of the file readers, (b) a 3/16 sample of the enumerated faults"""
+    import vbuild
+    exe = vbuild.harness("harness/C13_files.cpp", "o2")
+    cdir = os.path.join(root, "vgcorpus")
+    os.makedirs(cdir, exist_ok=True)
+    for t in ("geoid", "magnetic", "gravity", "readcoeffs", "nn_bin", "nn_text"):
+        files = sorted(glob.glob(os.path.join(corpus_root, t, "*")))[:400]
+        for f in files:
+            shutil.copy(f, os.path.join(cdir, "%s__%s" % (t, os.path.basename(f))))
+    jobs = [("corpus", ["--sections", "seed_valid,corpus_replay", "--nshards", "1", "--shard", "0"])]
+    for s in (1, 6, 11):
+        jobs.append(("faults%d" % s, ["--sections", "fault_,geoid_ftruncate", "--nshards", "16", "--shard", str(s)]))
+    venv = dict(os.environ, C13_CORPUS_DIR=cdir)
+    secnames = [l.split()[0] for l in subprocess.run([exe, "--list"], stdout=subprocess.PIPE, text=True, env=venv).stdout.splitlines()]
+
+    def parse(txt):
+        """distinct (kind, first GeographicLib frame) of every memcheck error block in a log"""
+        keys = {}
+        for blk in re.split(r"\n==\d+== \n", txt):
+            m = re.search(r"==\d+== ([A-Z][^\n]*)", blk)
+            if not m:
+                continue
+            what = m.group(1).strip()
+            if what.startswith("Exit program") or what.startswith("ERROR SUMMARY"):
+                continue
+            kind = ("uninitialised-value" if "ninitialised" in what else "invalid-read" if "Invalid read" in what else
+                    "invalid-write" if "Invalid write" in what else "invalid-free" if "free" in what else
+                    "overlap" if "overlap" in what else "other")
+            fn = None
+            for mm in re.finditer(r"(?:at|by) 0x[0-9A-F]+: (.+?) \(", blk):
+                if "GeographicLib::" in mm.group(1):
+                    fn = re.sub(r"<.*?>", "", re.sub(r"\(.*$", "", mm.group(1)))
+                    break
+            keys.setdefault("memcheck:%s@%s" % (kind, fn or "unknown-frame"), blk[:3000])
+        return keys
+
+    def run(job):
+        name, args = job
+        out = os.path.join(root, "vg.%s.jsonl" % name)
+        prog = os.path.join(root, "vg.%s.prog" % name)
+        base = ["valgrind", "-q", "--soname-synonyms=somalloc=nouserintercepts", "--error-exitcode=99", "--track-origins=yes"]
+        tail = [exe, "--seed", str(seed), "--tier", "quick", "--progress", prog] + args
+        # pass 1: the whole job, all distinct errors (valgrind reports each distinct stack once)
+        p = subprocess.run(base + tail + ["--out", out], env=venv, stdout=subprocess.DEVNULL, stderr=subprocess.PIPE)
+        found = []
+        if p.returncode not in (0, 99):
+            res.inconclusive.append("valgrind job %s: exit %d" % (name, p.returncode))
+        keys = parse(p.stderr.decode("utf-8", "replace")) if p.returncode == 99 else {}
+        # pass 2: a witness case for the first error
+        wit = {}
+        if keys:
+            q = subprocess.run(base + ["--exit-on-first-error=yes"] + tail + ["--out", out + ".w"], env=venv,
+                               stdout=subprocess.DEVNULL, stderr=subprocess.PIPE)
+            try:
+                si, _, idx = struct.unpack("<IIQ", open(prog, "rb").read(16))
+                for k in parse(q.stderr.decode("utf-8", "replace")):
+                    wit[k] = (secnames[si], idx)
+            except Exception:
+                pass
+        for k, blk in keys.items():
+            sec, idx = wit.get(k, ("corpus_replay" if name == "corpus" else "fault_geoid", 0))
+            found.append(dict(key=k, section=sec, idx=idx, report=blk, witnessed=k in wit))
+        stat = None
+        if os.path.exists(out):
+            for line in open(out, errors="replace"):
+                try:
+                    r = json.loads(line)
+                except Exception:
+                    continue
+                if r.get("t") == "stat":
+                    stat = r
+        return name, found, stat
+    t0 = time.time()
+    with ThreadPoolExecutor(len(jobs)) as ex:
+        results = list(ex.map(run, jobs))
+    total = 0
+    for name, found, stat in results:
+        for f in found:
+            res.add_viol(dict(key=f["key"], **{"class": "valgrind/" + name}, run="C13_files.valgrind", section=f["section"], idx=f["idx"],
+                              seed=seed, flavour="o2", harness="harness/C13_files.cpp", detail=dict(report=f["report"], witness_is_exact=f["witnessed"])))
+        if stat:
+            total += stat.get("evals", 0)
+    res.extra["valgrind"] = dict(cases_under_memcheck=total, jobs=[j[0] for j in jobs], wall_s=round(time.time() - t0, 1))
+    res.classes["valgrind/cases"] = total
+    res.evals += total
+
+
+def extra(res, tier, seed, workdir):
+    import driver, vbuild
+    _cleanup_stale()
+    if _ONLY and _ONLY != "fuzz":
+        return
+    exe = vbuild.harness("fuzz/C13_fuzz.cpp", "fuzz")
+    root = "/dev/shm/c13.%d" % os.getpid()
+    shutil.rmtree(root, ignore_errors=True)
+    os.makedirs(os.path.join(root, "seeds"))
+    os.makedirs(os.path.join(root, "scratch"))
+    atexit.register(lambda: shutil.rmtree(root, ignore_errors=True))
+    try:
+        env = dict(os.environ)
+        env.update(FUZZ_ENV)
+        for p in ("/usr/bin/llvm-symbolizer-14", "/usr/bin/llvm-symbolizer"):
+            if os.path.exists(p):
+                env["ASAN_SYMBOLIZER_PATH"] = p
+                env["UBSAN_SYMBOLIZER_PATH"] = p
+                break
+        subprocess.run([exe], env=dict(env, C13_WRITE_SEEDS=os.path.join(root, "seeds")), check=True,
+                       stdout=subprocess.DEVNULL, stderr=subprocess.DEVNULL)
+        ti = 0 if tier == "quick" else 1
+        t0 = time.time()
+        order = sorted(FUZZ_RUNS, key=lambda t: -FUZZ_RUNS[t][ti])
+        with ThreadPoolExecutor(NJOBS) as ex:
+            results = list(ex.map(lambda t: _fuzz_target(exe, t, FUZZ_RUNS[t][ti], seed, root, env), order))
+        fz, total = {}, 0
+        for out, crashes, mons in results:
+            t = out["target"]
+            fz[t] = {k: v for k, v in out.items() if k != "target"}
+            total += out["execs"]
+            res.classes["fuzz/" + t] = out["execs"]
+            seen = set()
+            for c in crashes:
+                idx = _witness(t, c["data"])
+                res.add_viol(dict(key=c["key"], **{"class": "fuzz/" + t}, run="C13_fuzz", section="fuzz_witness", idx=idx, seed=seed,
+                                  flavour="asan", harness="harness/C13_files.cpp",
+                                  detail=dict(target=t, kind=c["kind"], input_hex=c["data"][:2048].hex(), report=c["report"])))
+            for m in mons:
+                if (m["key"], m["input"]) in seen:
+                    continue
+                seen.add((m["key"], m["input"]))
+                try:
+                    data = bytes.fromhex(m["input"].rstrip("."))
+                except ValueError:
+                    data = b""
+                idx = _witness(t, data)
+                res.add_viol(dict(key=m["key"], **{"class": "fuzz/" + t}, run="C13_fuzz", section="fuzz_witness", idx=idx, seed=seed,
+                                  flavour="asan", harness="harness/C13_files.cpp",
+                                  detail=dict(target=t, what=m.get("detail", ""), input_hex=m["input"][:4096])))
+        res.evals += total
+        res.extra["fuzz"] = dict(total_executions=total, wall_s=round(time.time() - t0, 1), targets=fz,
+                                 note="libFuzzer -runs bounded, -seed=VERIF_SEED, ASan+UBSan, operator new capped at 512 MB")
+        res.extra["levels"] = dict(
+            fault_enumeration="sections fault_geoid, fault_magnetic, fault_gravity, fault_readcoeffs, fault_nn_bin, fault_nn_text, geoid_ftruncate, "
+                              "parser_directed, ctor_matrix (finite lists run completely in both builds); counts in coverage.classes",
+            exploration="nan_propagation, special_values, special_multi, throw_outputs, ctor_random, parser_grammar, libFuzzer")
+        driver.log("[C13] libFuzzer: %d executions over %d targets in %.0fs" % (total, len(fz), time.time() - t0))
+        if tier == "thorough":
+            _valgrind(res, seed, root, os.path.join(root, "corpus"))
+            driver.log("[C13] valgrind: %s" % res.extra.get("valgrind"))
+    finally:
+        shutil.rmtree(root, ignore_errors=True)
+        _cleanup_stale()
